@@ -230,6 +230,9 @@ def run(ctx):
             if q and tr[0] != 'transpose' and (t_i + a_i) % 6:
                 continue
             jobs.append((k, api, list(tr), ctx.seed + (t_i % 3))); k += 1
+            if not q:                        # thorough: every transformation x API on three further scenes
+                for rep in (1, 2, 3):
+                    jobs.append((k, api, list(tr), ctx.seed + 100 * rep + (t_i % 3))); k += 1
     if not q:
         for extra in range(1, 4):        # transposition on more scenes
             for api, (_, transposable) in APIS.items():
